@@ -106,6 +106,9 @@ class C14(Prop):
                 if not r["unchanged"] or not r["content_length_kept"]:
                     res.append(("shim:non-html-altered", "a non-HTML response was altered", rp))
                 continue
+            if r.get("content_length_after") not in (None, "", str(r["out_len"])):
+                res.append(("shim:announced-length-wrong", "an HTML response (length %s) leaves the splice with Content-Length %s for a body of %d bytes" % (
+                    "known" if r.get("had_length") else "unknown", r.get("content_length_after"), r["out_len"]), rp))
             if r["unchanged"]:
                 continue
             if "insert_at" not in r or not r.get("rest_equals_body") or r.get("inserted_twice"):
